@@ -243,10 +243,13 @@ def strip_cases_file(cases):
 
 # ---- end-to-end statement at memory level (Proofs/WaveSimGlue.v wavesim_model_correct): hypotheses evaluated per case, the theorem's
 # ---- prediction (capture of the UNSTRIPPED line-level waveforms, line-level wacc) compared with what the implementation delivered ------
-GLUE_HEADER = HEADER.replace('Model.WaveSimModel Model.Corr', 'Model.WaveSimModel Model.Corr Model.WaveOps Model.WaveAcc Model.WaveGlue Proofs.WaveSimGlue')
+GLUE_HEADER = HEADER.replace('Model.WaveSimModel Model.Corr', 'Model.WaveSimModel Model.Corr Model.WaveOps Model.WaveAcc Model.WaveGlue Proofs.WaveSimGlue Proofs.WaveStripAcc')
 GLUE_CHECKS = ['hypotheses of wavesim_model_correct hold (wglue_hyps_b; false = outside the proved domain, not a failure)',
                'prediction of wavesim_model_correct (capture of the unstripped line-level waveform of the line feeding each s_node) = s[3..10] of the implementation',
                'line-level wacc over build_ops c false = abuf of the implementation (strip_forks off)']
+# C13_wavesim_model_activity_strip (Proofs/WaveStripAcc.v wglue_case_strip): abuf under strip_forks against the UNSTRIPPED line-level waveforms
+GLUE_CHECKS += ['prediction of wavesim_model_activity_strip (counts of the KEPT ops evaluated on the unstripped line waveforms, accumulated) = abuf of the implementation (strip_forks on)',
+                'weighted edges of the unstripped waveforms of the kept ops\' output lines = abuf of the implementation (strip_forks on, scratch slot not accumulating)']
 
 
 def coq_glue_case(c, caps, strip, delays, w, lane, s0, s1, s2, extra, tcap, a_ctrl=None):
@@ -262,7 +265,7 @@ def coq_glue_case(c, caps, strip, delays, w, lane, s0, s1, s2, extra, tcap, a_ct
     cp = cg.coq_list(capt, lambda x: 'None' if x is None else
                      f'Some ({b(x[0])}, {coq_time(x[1])}, {coq_time(x[2])}, {b(x[3])}, {b(x[4])}, {b(x[5])})')
     tc = 'MaxInf' if tcap is None else coq_time(int(tcap))
-    return (f'wglue_case {cg.coq_netlist(c)} {capl} {b(strip)} {cg.coq_list(list(delays), coq_dtab)} {actrl} {max(w.abuf_len, 0)} '
+    return (f'wglue_case_strip {cg.coq_netlist(c)} {capl} {b(strip)} {cg.coq_list(list(delays), coq_dtab)} {actrl} {max(w.abuf_len, 0)} '
             f'{svals} {ex} {tc} {cp} {cg.coq_list(ab, cg.coq_Z)}')
 
 
